@@ -100,6 +100,81 @@ func signedIndexRule(c *Ctx, rule, rel string, pick func(recv, meth string) bool
 
 // indexGuards collects the dominating facts that bound parameter p below (>= 0) and above (< len(base)).
 func indexGuards(b *ssa.BasicBlock, p *ssa.Parameter, base ssa.Value) (lower, upper bool, facts []string) {
+	// bounds tested by a small predicate helper: `if !b.valid(i) { return err }` — the comparisons the helper's
+	// result implies, read in the helper's own terms: its parameter bound to p, and len of the same field path of
+	// the parameter bound to the root of base
+	for _, cnd := range guards.DomConds(b) {
+		call, ok := cnd.V.(*ssa.Call)
+		if !ok {
+			continue
+		}
+		callee := call.Call.StaticCallee()
+		if callee == nil || callee.Blocks == nil || call.Call.IsInvoke() || len(callee.Params) != len(call.Call.Args) {
+			continue
+		}
+		var q *ssa.Parameter
+		for i, a := range call.Call.Args {
+			if paramOf(a) == p {
+				q = callee.Params[i]
+			}
+		}
+		if q == nil {
+			continue
+		}
+		sameAcross := func(v ssa.Value, delta int64) bool { // v is len(load q'.path)+delta with q' bound to base's root, same path
+			if delta != 0 {
+				bo, ok := v.(*ssa.BinOp)
+				if !ok {
+					return false
+				}
+				k, okc := guards.ConstInt(bo.Y)
+				if !okc || !((bo.Op == token.SUB && -k == delta) || (bo.Op == token.ADD && k == delta)) {
+					return false
+				}
+				v = bo.X
+			}
+			lc, ok := v.(*ssa.Call)
+			if !ok {
+				return false
+			}
+			bi, ok := lc.Call.Value.(*ssa.Builtin)
+			if !ok || bi.Name() != "len" {
+				return false
+			}
+			root1, path1, ok1 := fieldRootPath(lc.Call.Args[0])
+			root2, path2, ok2 := fieldRootPath(base)
+			if !ok1 || !ok2 || path1 != path2 {
+				return false
+			}
+			for i, cp := range callee.Params {
+				if cp == root1 {
+					return call.Call.Args[i] == ssa.Value(root2) && !storesToFieldPath(base.Parent(), path2)
+				}
+			}
+			return false
+		}
+		for _, f := range guards.ResultFacts(callee, cnd.Positive) {
+			L, R, op := f.L, f.R, f.Op
+			if paramOf(R) == q && paramOf(L) != q {
+				L, R = R, L
+				op = flip(op)
+			}
+			if paramOf(L) != q {
+				continue
+			}
+			if k, ok := guards.ConstInt(R); ok {
+				if (op == token.GEQ && k >= 0) || (op == token.GTR && k >= -1) || (op == token.EQL && k >= 0) {
+					lower = true
+					facts = append(facts, fmt.Sprintf("%s(…): %s %s %d", callee.Name(), p.Name(), op, k))
+				}
+				continue
+			}
+			if (op == token.LSS && sameAcross(R, 0)) || (op == token.LEQ && sameAcross(R, -1)) {
+				upper = true
+				facts = append(facts, fmt.Sprintf("%s(…): %s below len", callee.Name(), p.Name()))
+			}
+		}
+	}
 	for _, f := range guards.Facts(b) {
 		L, R, op := f.L, f.R, f.Op
 		// normalise so that the parameter is on the left
@@ -239,6 +314,59 @@ func sameStorage(a, b ssa.Value) bool {
 		}
 	}
 	return true
+}
+
+// fieldRootPath: v is a load of a chain of FieldAddr from a parameter: the parameter and the field-index path.
+func fieldRootPath(v ssa.Value) (*ssa.Parameter, string, bool) {
+	u, ok := v.(*ssa.UnOp)
+	if !ok || u.Op != token.MUL {
+		return nil, "", false
+	}
+	var parts []string
+	cur := u.X
+	for {
+		switch x := cur.(type) {
+		case *ssa.FieldAddr:
+			parts = append([]string{fmt.Sprint(x.Field)}, parts...)
+			cur = x.X
+		case *ssa.Parameter:
+			return x, strings.Join(parts, "."), true
+		default:
+			return nil, "", false
+		}
+	}
+}
+
+// storesToFieldPath: fn contains a store to a field address with this index path (fail closed).
+func storesToFieldPath(fn *ssa.Function, path string) bool {
+	if fn == nil {
+		return true
+	}
+	for _, blk := range fn.Blocks {
+		for _, ins := range blk.Instrs {
+			if st, ok := ins.(*ssa.Store); ok {
+				if _, p, ok := fieldAddrRootPath(st.Addr); ok && p == path {
+					return true
+				}
+			}
+		}
+	}
+	return false
+}
+
+func fieldAddrRootPath(cur ssa.Value) (*ssa.Parameter, string, bool) {
+	var parts []string
+	for {
+		switch x := cur.(type) {
+		case *ssa.FieldAddr:
+			parts = append([]string{fmt.Sprint(x.Field)}, parts...)
+			cur = x.X
+		case *ssa.Parameter:
+			return x, strings.Join(parts, "."), true
+		default:
+			return nil, "", false
+		}
+	}
 }
 
 // fieldPath renders a load of a chain of FieldAddr from a parameter as "param.f1.f2".
